@@ -145,6 +145,15 @@ M=[
 ('o8-bdd-varsafe-const-some','src/repr/bdd.rs','Compl(n) | Reg(n) => Some(n.var),\n            _ => None,','Compl(n) => Some(n.var),\n            _ => None,','fail'),
 ('ro1-bdd-isneg-wildcard','src/repr/bdd.rs','Compl(_) => true,\n            Reg(_) => false,\n            PtrTrue => false,\n            PtrFalse => false,','Compl(_) => true,\n            _ => false,','ok'),
 ('ro2-bdd-highraw-or-pattern','src/repr/bdd.rs','Compl(x) => x.high,\n            Reg(x) => x.high,','Compl(x) | Reg(x) => x.high,','ok'),
+('r12-topdown-filter-not-eq','src/builder/decision_nnf/builder.rs','let new_assgn = sat.difference_iter().filter(|x| x.label() != cur_v);\n                let r = self.conjoin_implied(new_assgn, BddPtr::true_ptr());','let new_assgn = sat.difference_iter().filter(|x| !(x.label() == cur_v));\n                let r = self.conjoin_implied(new_assgn, BddPtr::true_ptr());','ok'),
+('r16-condition-unused-map-or','src/builder/decision_nnf/builder.rs','let r = self.cond_helper(bdd, lbl, value);','let _is_top = bdd.var_safe().map_or(false, |top| top == lbl);\n        let r = self.cond_helper(bdd, lbl, value);','ok'),
+('r17-compile-loop-over-collected-vec','src/builder/decision_nnf/builder.rs','for l in sat.difference_iter() {','let implied: Vec<Literal> = sat.difference_iter().collect();\n        for l in implied.iter() {','ok'),
+('m24-compile-root-chain-reversed','src/builder/decision_nnf/builder.rs','for l in sat.difference_iter() {','for l in sat.difference_iter().rev() {','fail'),
+('m25-topdown-filter-drops-all','src/builder/decision_nnf/builder.rs','let new_assgn = sat.difference_iter().filter(|x| x.label() != cur_v);\n                let r = self.conjoin_implied(new_assgn, sub);','let new_assgn = sat.difference_iter().skip(1);\n                let r = self.conjoin_implied(new_assgn, sub);','fail'),
+('g1-guard-illtyped-cache-insert','src/builder/decision_nnf/builder.rs','cache.insert(hashed, r);','cache.insert(hashed, cur_v);','untr'),
+('r18-cond-matches-macro','src/builder/decision_nnf/builder.rs','let r = self.cond_helper(bdd, lbl, value);','if matches!(bdd, BddPtr::PtrTrue | BddPtr::PtrFalse) {\n            return bdd;\n        }\n        let r = self.cond_helper(bdd, lbl, value);','ok'),
+('r19-cond-tuple-let','src/builder/decision_nnf/builder.rs','let r = if value { bdd.high_raw() } else { bdd.low_raw() };','let (r, _other) = if value { (bdd.high_raw(), bdd.low_raw()) } else { (bdd.low_raw(), bdd.high_raw()) };','ok'),
+('m26-compile-cache-into-builder-field','src/builder/decision_nnf/builder.rs','let mut r = self.topdown_h(cnf, &mut sat, 0, &mut FxHashMap::default());','let mut r = self.topdown_h(cnf, &mut sat, 0, &mut self.shared_cache().borrow_mut());','differs'),
 ]
 S='/tmp/tw/dnnf/scratch_repo'
 sel=sys.argv[1:]
@@ -154,9 +163,11 @@ for (mid,f,old,new,exp) in M:
     src=open(S+'/'+f).read()
     if old not in src:
         print(mid,'| PATTERN NOT FOUND'); continue
-    open(S+'/'+f,'w').write(src.replace(old,new,1))
+    src=src.replace(old,new,1)
+    if mid.startswith('m26'): src=src.replace('fn stats(&self) -> DecisionNNFBuilderStats;','fn stats(&self) -> DecisionNNFBuilderStats;\n    fn shared_cache(&\'a self) -> &\'a std::cell::RefCell<FxHashMap<u128, BddPtr<\'a>>>;',1)
+    open(S+'/'+f,'w').write(src)
     out=subprocess.run(['/tmp/tw/dnnf/runtest.sh',mid,S],capture_output=True,text=True).stdout.strip()
     res=out.split('|')[1].strip()
-    good = (exp=='fail' and res.startswith('TIE FAILS')) or (exp=='ok' and (res=='BUILD OK'))
+    good = (exp=='fail' and res.startswith('TIE FAILS')) or (exp=='ok' and res=='BUILD OK' and 'all translated' in out) or (exp=='untr' and res=='BUILD OK' and 'UNTR' in out) or (exp=='differs' and 'DIFFERS' in out)
     print(out,'| expected',exp,'|','PASS' if good else '***CHECK***',flush=True)
 shutil.rmtree(S,ignore_errors=True)
